@@ -20,7 +20,7 @@ METAMORPHIC only (Coq-proved soundness lemma Meta.lin2_violation; `consistent` p
   and ci(x) + e1(x) = RInt exp(-x sin t) sin(x cos t) 0 (PI/2).
 NOT DECIDED: all complex arguments; ei, ci, shi, chi, li values themselves (removable singularities / Euler's constant);
 gammainc with a < 1 or negative/complex parameters; betainc with a or b < 1 or reaching the end points with non-integer
-parameters; expint of non-integer or negative order; precisions above 100 bits for integral references (quick) / 200 (thorough)."""
+parameters; expint of non-integer or negative order; precisions above 53 bits for integral references (quick) / 200 (thorough)."""
 import math
 from fractions import Fraction
 from common import *
@@ -31,13 +31,13 @@ from specb import *
 LEVEL = "exploration"
 PRECS_QUICK = [20, 53, 53, 100]
 PRECS_THOROUGH = [20, 53, 100, 200]
-PRECS_INT_QUICK = [20, 53, 53, 53, 100]       # integral references
+PRECS_INT_QUICK = [20, 53, 53, 53]       # integral references (100/200 bits: thorough tier)
 TIER = ["quick"]
 
 NOT_DECIDED = [
     "every complex argument; ei/ci/shi/chi/li values themselves (only increments, metamorphic); gammainc with a < 1, negative or "
     "complex a; betainc with a or b < 1; expint of non-integer/negative order; erfinv for |x| > 0.9",
-    "integral references above 100 bits (quick) / 200 bits (thorough): Interval's integral enclosures get too expensive",
+    "integral references above 53 bits (quick) / 200 bits (thorough): Interval's integral enclosures get too expensive",
 ]
 
 ASSUMPTIONS = [
@@ -297,7 +297,7 @@ IQ = dict(precs=PRECS_INT_QUICK, params=iparams)
 reg("npdf", "npdf", lambda c, x, mu, sg: c.npdf(M(c, x), M(c, mu), M(c, sg)), r_npdf,
     lambda rng, p: [gx(rng, -12, 12), gx(rng, -3, 3), abs(gx(rng, Fraction(1, 8), 4))], w=1.0, regime="elementary")
 reg("erf", "erf", lambda c, x: c.erf(M(c, x)), r_erf, lambda rng, p: [gx(rng, Fraction(1, 64), 6, neg=True)], w=2.0, regime="integral", **IQ)
-reg("erf_small", "erf", lambda c, x: c.erf(M(c, x)), r_erf, lambda rng, p: [Fraction(rng.randint(1, 255), 2 ** rng.randint(9, 30))], w=0.6, regime="integral", **IQ)
+reg("erf_small", "erf", lambda c, x: c.erf(M(c, x)), r_erf, lambda rng, p: [Fraction(rng.randint(1, 255), 2 ** rng.randint(12, 60)) * rng.choice([1, 1, -1])], w=2.0, regime="integral", **IQ)
 reg("erfc_small", "erfc", lambda c, x: c.erfc(M(c, x)), r_erfc_small, lambda rng, p: [gx(rng, -4, 1)], w=1.0, regime="integral", **IQ)
 reg("erfc_tail", "erfc", lambda c, x: c.erfc(M(c, x)), gen=lambda rng, p: [gx(rng, 1, rng.choice([3, 8, 20]))], build=b_erfc_tail, w=1.5, regime="tail", **IQ)
 reg("erfi", "erfi", lambda c, x: c.erfi(M(c, x)), r_erfi, lambda rng, p: [gx(rng, Fraction(1, 64), 5, neg=True)], w=1.0, regime="integral", **IQ)
@@ -337,7 +337,7 @@ reg("m_ci_e1", "ci(x) & e1(x)", lambda c, x: (c.ci(M(c, x)), c.e1(M(c, x))), gen
 
 RULE = ("each evaluation = one call (metamorphic kinds: two calls) of the current /repo code; call form drawn from the %d-entry registry "
         "(every entry once, then by weight); arguments random short dyadic rationals in the ranges listed in the registry (erf up to 6, "
-        "tails up to 20-30, parameters a, b in [1, 12]); precisions 20/53/100 (200 thorough); non-trivial = a real Interval/integral or "
+        "tails up to 20-30, parameters a, b in [1, 12]); precisions 20/53 quick, 100/200 thorough; non-trivial = a real Interval/integral or "
         "vm_compute proof; distinct = distinct lemma statements" % len(K))
 
 
@@ -346,7 +346,7 @@ def run(rep, tier_, rng):
     for k in K:
         if k.precs is PRECS_INT_QUICK and tier_ == "thorough":
             k.precs = [20, 53, 100, 100, 200]
-    run_kinds(rep, K, tier_, rng, n_quick=int(os.environ.get('VERIF_B3_N', 40)), n_thorough=420, precs_quick=PRECS_QUICK, precs_thorough=PRECS_THOROUGH,
+    run_kinds(rep, K, tier_, rng, n_quick=int(os.environ.get('VERIF_B3_N', 36)), n_thorough=420, precs_quick=PRECS_QUICK, precs_thorough=PRECS_THOROUGH,
               assumptions=ASSUMPTIONS, rule=RULE, not_decided=NOT_DECIDED,
               params={"sentence_timeout": 100 if tier_ == "quick" else 400, "single_timeout": 100 if tier_ == "quick" else 400,
                       "batch": 6, "ladder": [1]},
